@@ -78,16 +78,21 @@ theorem reliable_received (s0 : PLink) (h0 : s0.Fresh) (fs : List Fault) (hb : s
     ∃ j, j ≤ (fs.foldl PLink.fault s0).drainBound ∧ (PLink.run j (fs.foldl PLink.fault s0)).Drained
       ∧ (queuedBy s0 fs).length = sentTotal fs
       ∧ (∀ i c, (queuedBy s0 fs)[i]? = some c → c.tsn = (s0.tx.lastSacked + ((i + 1 : Nat) : Int)) % 4294967296)
-      ∧ ∀ c ∈ queuedBy s0 fs, c.maxRetransmits = none → c.expiry = none →
-          c.tsn ∈ (PLink.run j (fs.foldl PLink.fault s0)).got := by
+      ∧ (∀ c ∈ queuedBy s0 fs, c.maxRetransmits = none → c.expiry = none →
+          c.tsn ∈ (PLink.run j (fs.foldl PLink.fault s0)).got)
+      ∧ (PLink.run j (fs.foldl PLink.fault s0)).rx.last = (s0.tx.lastSacked + (sentTotal fs : Int)) % 4294967296
+      ∧ (PLink.run j (fs.foldl PLink.fault s0)).tx.lastSacked = (PLink.run j (fs.foldl PLink.fault s0)).rx.last
+      ∧ (PLink.run j (fs.foldl PLink.fault s0)).tx.advAck = (PLink.run j (fs.foldl PLink.fault s0)).rx.last
+      ∧ (PLink.run j (fs.foldl PLink.fault s0)).tx.forwardNeeded = false := by
   obtain ⟨hc0, hn0⟩ := h0.coh
   obtain ⟨κ, f, r, hc, hg, hn⟩ := GotInv.faults fs hc0 h0.got (by omega)
-  obtain ⟨j, hj, hd, _⟩ := hc.drains
+  obtain ⟨j, hj, hd, d1, d2, d3, _, d5, _⟩ := hc.drains
   obtain ⟨κ2, f2, r2, hc2, hg2, hn2⟩ := GotInv.run j hc hg
   simp only [List.nil_append] at hg hg2
   have hz : (PLink.run j (fs.foldl PLink.fault s0)).tx.nOut = 0 := by
     unfold Tx.nOut; rw [hd.sentQ, hd.outQ]; rfl
-  refine ⟨j, hj, hd, by rw [hg.len]; omega, ?_, ?_⟩
+  refine ⟨j, hj, hd, by rw [hg.len]; omega, ?_, ?_, by rw [d3, show f + (List.foldl PLink.fault s0 fs).tx.nOut = sentTotal fs by omega]; rfl,
+    by rw [d1, d3], by rw [d2, d3], d5⟩
   · intro i c hi
     rw [hg.tsn i c hi]; rfl
   · intro c hcm h1 h2
